@@ -314,7 +314,11 @@ def classify(data, harnesses, prop):
 PLAYBACK_RE = re.compile(r"#\[test\]\s*\n\s*fn (kani_concrete_playback_\w+)\(\)\s*\{.*?\n\}", re.S)
 
 
-def concrete_playback(slot, prop, h, logdir):
+def _norm(t):
+    return re.sub(r"[^a-z0-9]+", " ", (t or "").lower()).strip()
+
+
+def concrete_playback(slot, prop, h, logdir, failed_checks=()):
     """returns dict(reproduced=bool|None, test=src, detail=str)"""
     data, lpath, rc, dt = run_kani(slot, prop, [h], 1, logdir,
                                    extra=["-Z", "concrete-playback", "--concrete-playback", "print"])
@@ -356,7 +360,15 @@ def concrete_playback(slot, prop, h, logdir):
                                 "tail": o[-1500:] if status in ("error", "not-run") else ""})
     finally:
         open(modfile, "w").write(orig)
-    dev = [r for r in results if r["profile"] == "dev"]
+    # a native failure confirms the solver's counterexample only if it is *the same* failure: its panic
+    # message must contain the description of one of the checks Kani reported as failed
+    wanted = [_norm(fc.get("description")) for fc in failed_checks if fc.get("description")]
+    for r in results:
+        if r["status"] == "failed" and wanted:
+            pm = _norm(r["panic"])
+            r["matches_failed_check"] = any(w and (w in pm or pm in w) for w in wanted if len(w) > 8)
+            if not r["matches_failed_check"]:
+                r["status"] = "failed-elsewhere"
     if any(r["status"] == "failed" for r in results):
         rep = True
     elif all(r["status"] == "passed" for r in results):
@@ -496,10 +508,14 @@ def run_property(pid, tier, only, jobs, keep, seed):
                 # (free/memcpy preconditions, unsupported-construct markers) have no concrete playback
                 user = [fc for fc in r["failed_checks"] if "kani_lib.c" not in (fc.get("location") or "")
                         and "library/kani" not in (fc.get("location") or "") and "builtin-library" not in (fc.get("location") or "")]
+                unsupported = [fc for fc in user if "not currently supported by Kani" in (fc.get("description") or "")
+                               or "unsupported_construct" in (fc.get("category") or "")]
                 if not user:
                     rp = {"reproduced": None, "detail": "only checks inside Kani's allocator/intrinsic models failed", "tests": []}
+                elif unsupported:
+                    rp = {"reproduced": None, "detail": "a construct Kani cannot encode is reachable (tool limitation, not a verdict)", "tests": []}
                 elif h.get("replay", "playback") == "playback":
-                    rp = concrete_playback(slot, prop, h, os.path.join(logdir, "replay-" + h["name"]))
+                    rp = concrete_playback(slot, prop, h, os.path.join(logdir, "replay-" + h["name"]), r["failed_checks"])
                 else:
                     rp = {"reproduced": None, "detail": "harness has no native replay (model-only)", "tests": []}
                 os.makedirs(os.path.join(OUT, "replays"), exist_ok=True)
